@@ -122,6 +122,7 @@ func main() {
 	}
 	c.resolveRenames(vdir)
 	c.initParamBinding()
+	c.initOwners()
 	for _, r := range c.Renames {
 		fmt.Println("note: anchor resolved across a rename:", r)
 	}
